@@ -113,6 +113,22 @@ def subject(case):
             except Exception as e:  # noqa
                 r['exc'] = common.exc_class(e) + ': ' + str(e)[:100]
             res[name] = r
+        # lazy resources: the verdict entry points only (lazy decoding is C06's subject, F-C06b/c)
+        if 'exc' not in res.get('text', {'exc': 1}):
+            for depth in (1, 2, 3):
+                r = {}
+                try:
+                    r['errors'] = sorted(err_key(e)[2] for e in s.iter_errors(xmlschema.XMLResource(path, lazy=depth)))
+                    r['is_valid'] = s.is_valid(xmlschema.XMLResource(path, lazy=depth))
+                    try:
+                        s.validate(xmlschema.XMLResource(path, lazy=depth))
+                        r['validate'] = None
+                    except xmlschema.XMLSchemaValidationError as e:
+                        r['validate'] = err_key(e)[2]
+                    r['pkg_is_valid'] = xmlschema.is_valid(path, schema=s, lazy=depth, use_location_hints=False)
+                except Exception as e:  # noqa
+                    r['exc'] = common.exc_class(e) + ': ' + str(e)[:100]
+                res['lazy%d' % depth] = r
     finally:
         if os.path.exists(path):
             os.unlink(path)
@@ -149,8 +165,25 @@ def check_docs(ctx, cases):
         ctx.dist('errors_per_document', min(len(E), 5))
         problems = []
         for name, r in o.items():
+            if 'exc' in r and name.startswith('lazy') and r['exc'].startswith('FOREIGN:') and \
+                    any(v not in ('urn:c11', 'urn:other', 'urn:o', 'urn:unk', 'http://www.w3.org/2001/XMLSchema-instance',
+                                  'http://www.w3.org/2001/XMLSchema', '') for v in re.findall(r'xmlns:\w+="([^"]*)"', c['doc'])):
+                ctx.known_finding('F-C04b')     # same defect as F-C11c, reached through an ancestor in a mutated namespace
+                continue
             if 'exc' in r:
                 problems.append('%s: %s' % (name, r['exc']))
+                continue
+            if name.startswith('lazy'):
+                # the verdict must not depend on the source kind; how often one fault is reported may differ between the
+                # chunked and the whole-document traversal and is not compared
+                if not E and r['errors'] and all('not found for' in x for x in r['errors']) and 'xsi:type' in c['doc']:
+                    ctx.known_finding('F-C04c')
+                    continue
+                if bool(r['errors']) != bool(E):
+                    problems.append('%s resource yields %d errors, the text source %d' % (name, len(r['errors']), len(E)))
+                if r['is_valid'] != (not E) or r['pkg_is_valid'] != (not E) or (r['validate'] is None) != (not E):
+                    problems.append('%s resource: is_valid=%s package is_valid=%s validate %s, the text source has %d errors'
+                                    % (name, r['is_valid'], r['pkg_is_valid'], 'passes' if r['validate'] is None else 'raises', len(E)))
                 continue
             # the model's policy applied to the lax error list of THIS source
             e = r['errors']
